@@ -124,6 +124,15 @@ def run_property(prop, cfg, tier, seed, jobs, work, rebaseline=False, only=None)
             units = [u for u in units if b['units_filter'](u)]
         key = b['name']
         new_base[key] = sorted(units)
+        # signature fingerprints of every function copied into this bundle (global section of the baseline)
+        sigs = baseline.setdefault('_signatures', {})
+        for x in br.g.units:
+            if rebaseline:
+                sigs[x['fn']] = x['sig']
+            elif x['fn'] in sigs and sigs[x['fn']] != x['sig'] and not only:
+                undecided.append('%s: signature of %s changed (%r, contracts were written for %r): the contracts do not apply' % (key, x['fn'], x['sig'][:160], sigs[x['fn']][:160]))
+        if any(u_.startswith(key + ': signature of') for u_ in undecided):
+            continue
         if only:
             units = [u for u in units if u in only.split(',')]
         elif not rebaseline:
